@@ -71,8 +71,18 @@ def _cases(draw, tier):
     opts = {"cse": draw(st.booleans()), "graded": draw(st.booleans()), "symcls": draw(st.sampled_from([None, "sympy"])),
             "wrapper": draw(st.booleans()), "pretty_blade": draw(st.sampled_from([None, "e", "g"]))}
     vmode = draw(st.sampled_from(["frac", "frac", "frac", "bool", "bigint", "int", "complex"])) if op in EXACT and op not in ("inv", "div") else "frac"
+    # the empty multivector as an operand (a boundary of every operator's domain)
+    if op != "sqrt" and draw(st.integers(0, 7)) == 0:
+        if b is not None and draw(st.booleans()):
+            b = {"grades": [], "keys": [], "vals": []}
+        else:
+            a = {"grades": [], "keys": [], "vals": []}
+    # a composite operator generated on the same operands BEFORE the operator under test (order of first use)
+    pre = draw(st.sampled_from([None, None, None, "normsq", "sw", "proj", "inv", "polarity", "outerexp", "normsq"]))
+    if pre in ("sw", "proj", "inv", "outerexp") and (len(a["keys"]) > 4 or (b and len(b["keys"]) > 4)):
+        pre = "normsq"
     return {"cfg": cfg, "op": op, "a": a, "b": b, "opts": opts, "vmode": vmode,
-            "build": draw(st.sampled_from(["ctor", "ctor", "blades"]))}
+            "build": draw(st.sampled_from(["ctor", "ctor", "blades"])), "pre": pre}
 
 
 def cases(tier):
@@ -124,6 +134,14 @@ def _run(alg, op, case, floaty, ref):
             y = _mv(alg, ref, kb, [conv(v) for v in case["b"]["vals"]], how)
     except Exception as e:
         return "exc", f"{type(e).__name__}: building the operands: {str(e)[:160]}"
+    pre = case.get("pre")
+    if pre:
+        for u in (x, y):
+            if u is not None:
+                try:
+                    getattr(u, pre)(x) if pre in ("sw", "proj") else getattr(u, pre)()
+                except Exception:
+                    pass
     try:
         r = getattr(x, op)(y) if y is not None else getattr(x, op)()
         return "ok", r
@@ -156,7 +174,11 @@ def evaluate(case):
         labels.append("opt:nocse")
     if 0 in ref.sig:
         labels.append("sig:degenerate")
-    key = [cfg["sig"], cfg.get("start"), cfg.get("basis"), op, case["a"]["grades"], case["b"] and case["b"]["grades"], o, case.get("vmode"), case.get("build")]
+    key = [cfg["sig"], cfg.get("start"), cfg.get("basis"), op, case["a"]["grades"], case["b"] and case["b"]["grades"], o, case.get("vmode"), case.get("build"), case.get("pre")]
+    if case.get("pre"):
+        labels.append("pre:composite-first")
+    if not case["a"]["grades"] or (case["b"] is not None and not case["b"]["grades"]):
+        labels.append("operand:empty")
     labels += [f"vmode:{case.get('vmode', 'frac')}", f"build:{case.get('build', 'ctor')}"]
     if cfg.get("basis"):
         labels.append("basis:custom")
